@@ -48,6 +48,7 @@ func runC05(c *Config, r *Report) {
 	c05R17(ic, r)
 	c05R18(ic, r)
 	c05R19(ic, r)
+	c05R20(ic, r)
 	c04R20(ic, r, "R05.15")
 	c05R11(ic, r)
 	c05R3(ic, r)
@@ -1525,5 +1526,94 @@ func c05R19(ic *IC, r *Report) {
 	})
 	if n == 0 {
 		r.Errorf("R05.19: the branch of the assign case that builds a composite literal in place was not found")
+	}
+}
+
+func init() {
+	ruleText["R05.20"] = "the nil value of an interpreted interface type is recognised before it is looked into: in the closures generated by typeAssert, a variable obtained by asserting a value to valueInterface has its node field compared with nil (in an if condition) before the first read through it (v.node.typ ...) - the zero valueInterface is what an uninitialised variable of an interpreted interface type holds, and its node is nil"
+}
+
+// c05R20: D140 (round-7 report on C05, D04). var g Getter; _, ok := g.(Namer) dereferenced nil.
+func c05R20(ic *IC, r *Report) {
+	info := ic.Info
+	ta := ic.fn(r, "typeAssert")
+	if ta == nil {
+		return
+	}
+	nodeFld := ic.field("valueInterface", "node")
+	if nodeFld == nil {
+		r.Errorf("R05.20: field valueInterface.node not found")
+		return
+	}
+	n := 0
+	ast.Inspect(ta.Decl.Body, func(q ast.Node) bool {
+		fl, ok := q.(*ast.FuncLit)
+		if !ok {
+			return true
+		}
+		// v, ok := X.(valueInterface)
+		ast.Inspect(fl.Body, func(z ast.Node) bool {
+			as, ok := z.(*ast.AssignStmt)
+			if !ok || len(as.Lhs) != 2 || len(as.Rhs) != 1 {
+				return true
+			}
+			tae, ok := unparen(as.Rhs[0]).(*ast.TypeAssertExpr)
+			if !ok || tae.Type == nil {
+				return true
+			}
+			if nt, ok := info.TypeOf(tae.Type).(*types.Named); !ok || nt.Obj().Name() != "valueInterface" {
+				return true
+			}
+			id := identOf(as.Lhs[0])
+			if id == nil || id.Name == "_" {
+				return true
+			}
+			v := info.ObjectOf(id)
+			// the first read through v.node, and the first nil test of v.node
+			firstRead, firstTest := token.NoPos, token.NoPos
+			ast.Inspect(fl.Body, func(y ast.Node) bool {
+				switch x := y.(type) {
+				case *ast.IfStmt:
+					ast.Inspect(x.Cond, func(w ast.Node) bool {
+						b, ok := w.(*ast.BinaryExpr)
+						if !ok || (b.Op != token.EQL && b.Op != token.NEQ) {
+							return true
+						}
+						se, ok := unparen(b.X).(*ast.SelectorExpr)
+						if !ok || selField(info, se) != nodeFld {
+							return true
+						}
+						if rid := identOf(se.X); rid == nil || info.ObjectOf(rid) != v {
+							return true
+						}
+						if nid := identOf(b.Y); nid != nil && nid.Name == "nil" && (firstTest == token.NoPos || b.Pos() < firstTest) {
+							firstTest = b.Pos()
+						}
+						return true
+					})
+				case *ast.SelectorExpr:
+					// a read through the node: v.node.X
+					if inner, ok := unparen(x.X).(*ast.SelectorExpr); ok && selField(info, inner) == nodeFld {
+						if rid := identOf(inner.X); rid != nil && info.ObjectOf(rid) == v {
+							if firstRead == token.NoPos || x.Pos() < firstRead {
+								firstRead = x.Pos()
+							}
+						}
+					}
+				}
+				return true
+			})
+			if firstRead == token.NoPos {
+				return true
+			}
+			n++
+			r.Check(firstTest != token.NoPos && firstTest < firstRead, "R05.20", fmt.Sprintf("typeAssert/asserted-value#%d/nil-node-tested-before-use", n), ic.pos(as.Pos()), "the node of the asserted value is compared with nil before it is read",
+				"typeAssert reads through "+id.Name+".node at "+ic.pos(firstRead)+" without having compared it with nil: the zero valueInterface - what an uninitialised variable of an interpreted interface type holds - passes the assertion to valueInterface with a nil node, so `var g Getter; _, ok := g.(Namer)` dereferences nil (compiled Go: ok is false)")
+			return true
+		})
+		return true
+	})
+	if n < 2 {
+		r.Errorf("R05.20: only %d values asserted to valueInterface and then read through their node found in typeAssert", n)
 	}
 }
